@@ -51,7 +51,7 @@ int main(int argc, char **argv)
              * file nesting up to the 8-bit index too -- around the later doublings (39-41, 79-81, 159-161) and close to the index limit */
             int chain_class = (int) vh_below(100);
             int chain_left = chain_class < 64 ? 0 : chain_class < 74 ? (int) vh_range(9, 11) : chain_class < 84 ? (int) vh_range(19, 21) : chain_class < 92 ? (int) vh_range(1, 4)
-                           : chain_class < 94 ? (int) vh_range(39, 41) : chain_class < 96 ? (int) vh_range(79, 81) : chain_class < 98 ? (int) vh_range(159, 162) : (int) vh_range(240, 248);
+                           : chain_class < 94 ? (int) vh_range(39, 41) : chain_class < 96 ? (int) vh_range(79, 81) : chain_class < 98 ? (int) vh_range(159, 162) : vh_coin(50) ? (int) vh_range(240, 250) : (int) vh_range(251, 257);
             int files_left = chain_left ? (int) vh_below(2) : (int) vh_below(4);
             expansion_case = vh_coin(10);
             null_replaced = vh_coin(50);
@@ -139,7 +139,8 @@ int main(int argc, char **argv)
                 VH_CHECK(fstate_idx == 0, "parse:file-stack", "fstate_idx is %u after spifconf_parse returned (entry value 0)", fstate_idx);
                 int fds_after = cx_fd_count();
                 VH_CHECK(fds_after == fds_before, "parse:files-open", "%d descriptors open after the parse, %d before", fds_after, fds_before);
-                if (balanced) VH_CHECK(st.ctx_state_idx == 0, "parse:context-stack", "context stack depth %u after a balanced input (entry value 0)", st.ctx_state_idx);
+                /* balanced as delivered: what an include refused at the file index limit would have opened or closed does not count */
+                if (balanced && lm.depth == 0) VH_CHECK(st.ctx_state_idx == 0, "parse:context-stack", "context stack depth %u after a balanced input (entry value 0)", st.ctx_state_idx);
                 else vh_count("unbalanced_cases", 1);
                 if (st.ctx_state_cnt >= 40) vh_count("ctx_stack_grew_to_40", 1);
                 if (st.ctx_state_cnt >= 80) vh_count("ctx_stack_grew_to_80", 1);
@@ -182,7 +183,7 @@ int main(int argc, char **argv)
             if (vh_case_idx % 10 == 1) vh_sample("%d files, %ld lines -> %d events (max depth %ld, include depth %d, %ld unknown begins, %ld surplus ends), e.g. %s", cx_nfiles, lm.lines, cx_nexp,
                                                  lm.max_depth, max_level, lm.unknown_begins, lm.surplus_ends, vh_q(mainf->data.b, (long) (mainf->data.n > 100 ? 100 : mainf->data.n)));
             /* second parse in the same cycle: state threading continues from slot 0 (weakly: its carried-over value is not asserted) */
-            if (balanced && vh_coin(25)) {
+            if (balanced && lm.depth == 0 && vh_coin(25)) {           /* (balanced as delivered, see above) */
                 cx_log_reset(); cx_files_reset();
                 cx_g.target_depth = (int) vh_below(4); cx_g.files_left = 1; cx_g.chain_left = 0;
                 cx_file *m2 = cx_gen_tree("second.cfg", 1, 50);
